@@ -146,7 +146,7 @@ func findEntry(ctx context.Context, m *Mast, key, value interface{}, options *fi
 	if cmp != 0 {
 		return nil, 0, fmt.Errorf("key %v not present in tree", key)
 	}
-	if node.Value[i] != value {
+	if !reflect.DeepEqual(node.Value[i], value) {
 		return nil, 0, fmt.Errorf("value not present for given key (found=%v, wanted=%v)", node.Value[i], value)
 	}
 	return node, i, nil
